@@ -280,3 +280,134 @@ def cases(tier: str):
 
 if __name__ == '__main__':
     child_main(*sys.argv[1:5])
+
+
+# ---------------------------------------------------------------------------
+# Real SIGINT delivery (C14): Ctrl-C goes to the whole foreground process group
+
+def sigint_child_main(backend: str, mw: str, n: str, storage_dir: str):
+    silence_labtech()
+    import labtech
+    from .spec import Built
+    n = int(n)
+    spec = mk_spec([[] for _ in range(n)], types=['TA'] * n)
+    built = Built(spec)
+    lab = labtech.Lab(storage=storage_dir, runner_backend=backend, max_workers=int(mw), notebook=False)
+    try:
+        res = lab.run_tasks(list(built.canon), disable_progress=True, disable_top=True)
+        print(json.dumps({'outcome': 'return', 'n': len(res)}), flush=True)
+    except KeyboardInterrupt:
+        print(json.dumps({'outcome': 'KeyboardInterrupt'}), flush=True)
+    except BaseException as e:  # noqa
+        print(json.dumps({'outcome': f'{type(e).__name__}: {e}'}), flush=True)
+
+
+def sigint_case(args):
+    """args = (backend, max_workers, n_tasks, double)"""
+    backend, mw, n, double = args
+    silence_labtech()
+    import labtech
+    from .spec import Built
+    tmp = tempfile.mkdtemp(prefix='e4s_')
+    bd = os.path.join(tmp, 'barrier')
+    os.makedirs(bd)
+    wf = os.path.join(tmp, 'world.log')
+    open(wf, 'w').close()
+    st = os.path.join(tmp, 'st')
+    viols = []
+    d = f'[real {backend} backend, real SIGINT to the process group] {n} independent tasks, max_workers={mw}, {"double" if double else "single"} interrupt'
+    proc = subprocess.Popen([sys.executable, '-c', 'import sys; from verif_lt.e4b import sigint_child_main; sigint_child_main(*sys.argv[1:5])',
+                             backend, str(mw), str(n), st],
+                            env=py_env(3, VERIF_WORLD_FILE=wf, VERIF_BARRIER_DIR=bd, VERIF_EPOCH=1, VERIF_RECORD_ENV=1),
+                            stdout=open(os.path.join(tmp, 'out'), 'wb'), stderr=open(os.path.join(tmp, 'err'), 'wb'),
+                            stdin=subprocess.DEVNULL, start_new_session=True)
+    try:
+        deadline = time.monotonic() + 60
+        while time.monotonic() < deadline and len(read_world(wf)[1]) < mw:
+            if proc.poll() is not None:
+                raise HarnessError(f'sigint child exited early: {open(os.path.join(tmp, "err")).read()[-500:]}')
+            time.sleep(0.01)
+        executing = list(read_world(wf)[1])
+        if len(executing) < mw:
+            raise HarnessError(f'{d}: workers did not start within 60 s')
+        # worker pids, from the environment records
+        pids = {}
+        for l in open(wf):
+            e = json.loads(l)
+            if e[2] == 'env':
+                pids[tuple(e[3])] = e[4]
+        time.sleep(0.2)      # let the coordinator settle in its polling loop
+        os.killpg(proc.pid, signal.SIGINT)
+        time.sleep(0.7)
+        started_after = [k for k in read_world(wf)[0] if k not in executing]
+        if started_after:
+            viols.append(('C14', f'{backend}:real-sigint-started-after-interrupt', f'{d}: tasks {started_after} were started after the interrupt'))
+        dead = [k for k, p in pids.items() if not _alive(p)]
+        if not double:
+            if dead:
+                viols.append(('C14', f'{backend}:real-sigint-worker-died', f'{d}: workers executing {dead} died at the first interrupt instead of being allowed to finish'))
+            if proc.poll() is not None:
+                viols.append(('C14', f'{backend}:real-sigint-did-not-wait', f'{d}: run_tasks ended while tasks were still executing'))
+            for k in executing:
+                open(os.path.join(bd, f'go_{k[1]}'), 'w').close()
+            try:
+                proc.wait(timeout=60)
+            except subprocess.TimeoutExpired:
+                viols.append(('C14', f'{backend}:real-sigint-hang', f'{d}: run_tasks did not end within 60 s after the executing tasks finished'))
+                return {'viols': viols}
+        else:
+            os.killpg(proc.pid, signal.SIGINT)
+            try:
+                proc.wait(timeout=30)
+            except subprocess.TimeoutExpired:
+                viols.append(('C14', f'{backend}:real-double-sigint-waits', f'{d}: run_tasks still waits 30 s after the second interrupt (the executing tasks never finish)'))
+                return {'viols': viols}
+            time.sleep(0.3)
+            alive = [k for k, p in pids.items() if _alive(p)]
+            if alive:
+                viols.append(('C14', f'{backend}:real-double-sigint-not-terminated', f'{d}: workers executing {alive} are still alive after the second interrupt'))
+        out = open(os.path.join(tmp, 'out')).read().strip().splitlines()
+        outcome = json.loads(out[-1])['outcome'] if out else f'no output (exit {proc.returncode})'
+        if outcome != 'KeyboardInterrupt':
+            viols.append(('C14', f'{backend}:real-sigint-wrong-outcome', f'{d}: run_tasks ended with {outcome!r} instead of KeyboardInterrupt'))
+        started_total = read_world(wf)[0]
+        if len(started_total) > len(executing):
+            viols.append(('C14', f'{backend}:real-sigint-started-after-interrupt', f'{d}: {len(started_total)} tasks started in total, {len(executing)} were executing at the interrupt'))
+        if not double:
+            spec = mk_spec([[] for _ in range(n)], types=['TA'] * n)
+            built = Built(spec)
+            lab = labtech.Lab(storage=st, runner_backend='serial', notebook=False)
+            for k in executing:
+                t = built.canon[k[1]]
+                if not lab.is_cached(t):
+                    viols.append(('C14', f'{backend}:real-sigint-executing-not-cached', f'{d}: {k} was executing at the interrupt but its result is not cached'))
+        return {'viols': viols}
+    finally:
+        try:
+            os.killpg(proc.pid, signal.SIGKILL)
+        except (ProcessLookupError, PermissionError):
+            pass
+        try:
+            proc.wait(timeout=10)
+        except Exception:  # noqa
+            pass
+        shutil.rmtree(tmp, ignore_errors=True)
+
+
+def _alive(pid: int) -> bool:
+    try:
+        with open(f'/proc/{pid}/stat') as f:
+            return f.read().split(') ')[-1].split()[0] != 'Z'
+    except OSError:
+        return False
+
+
+def sigint_cases(tier: str):
+    out = []
+    for be in ('fork', 'spawn'):
+        for double in (False, True):
+            out.append((be, 2, 4, double))
+            if tier != 'quick':
+                out.append((be, 1, 3, double))
+                out.append((be, 3, 3, double))
+    return out
